@@ -59,6 +59,9 @@ func (ex *Exec) clauseTagsOf(cl *Clause, con *Contract) []string {
 	if len(cl.Tags) > 0 {
 		return cl.Tags
 	}
+	if cl.Kind == "requires" {
+		return []string{"C17"} // an untagged precondition is a safety condition (non-nil arguments and the like)
+	}
 	if con != nil {
 		if t := con.AllTags(); len(t) > 0 {
 			return t
@@ -507,6 +510,33 @@ func (ex *Exec) specCall(x SCall, env *SpecEnv) Term {
 		h1, d1 := ex.heap(ex.st, m.Sort.Heap), ex.heap(ex.st, m.Sort.Dom)
 		h0, d0 := ex.heap(env.old, m.Sort.Heap), ex.heap(env.old, m.Sort.Dom)
 		return And(Eq(Term{sel(h1, m), SBool}, Term{sel(h0, m), SBool}), Eq(Term{sel(d1, m), SBool}, Term{sel(d0, m), SBool}))
+	case "heap":
+		// heap(T): the current contents of all cells of pointer type T, as an array
+		t := typeArg(0)
+		ps := U.SortOf(t)
+		if ps.Kind != KRef || ps.IsMap {
+			sfail("heap() needs a pointer type")
+		}
+		h := ex.heap(ex.st, ps.Heap)
+		return Term{h.S, &Sort{Name: U.heaps[ps.Heap], Kind: KOpaque}}
+	case "mapvals", "mapdom":
+		// the contents / the key set of a map as mathematical arrays (for uninterpreted functions of a whole map)
+		m := arg(0)
+		if m.Sort.Kind != KRef || !m.Sort.IsMap {
+			sfail("%s() needs a map", x.Fun)
+		}
+		if x.Fun == "mapvals" {
+			h := ex.heap(ex.st, m.Sort.Heap)
+			return Term{sel(h, m), &Sort{Name: "(Array " + m.Sort.Key.Name + " " + m.Sort.Elem.Name + ")", Kind: KOpaque}}
+		}
+		d := ex.heap(ex.st, m.Sort.Dom)
+		return Term{sel(d, m), &Sort{Name: "(Array " + m.Sort.Key.Name + " Bool)", Kind: KOpaque}}
+	case "seen":
+		// seen(k): key k was already visited by the innermost enclosing range over a map
+		if len(ex.seenStack) == 0 {
+			sfail("seen() outside a range over a map")
+		}
+		return Term{"(select " + ex.seenStack[len(ex.seenStack)-1].S + " " + arg(0).S + ")", SBool}
 	case "isNil":
 		v := arg(0)
 		return Eq(v, U.Zero(v.Sort))
